@@ -6,7 +6,11 @@
 // type minus one field (skipping; with DisallowUnknownFields it must fail)}.
 // Encode direction: every value of a reflect-generated Go type universe (depth <= d) x {file,
 // network} x {value, pointer}; output judged by the independent reader and the documented mapping.
-// Call histories (history.go): every sequence of <= K entry-point calls, each judged on its own.
+// Call histories (history.go): every sequence of <= K entry-point calls, each judged on its own; what a
+// call returned (Marshal's bytes, decoded slices) is re-checked after every later call.
+// Audit families (extra.go): used destinations, size classes of containers and strings/keys/root names,
+// widening destinations, struct-tag combinations, one Decoder/Encoder for several documents, typed maps,
+// reader behaviours (last byte with io.EOF, one byte per Read).
 package main
 
 import (
@@ -341,7 +345,7 @@ func clipB(b []byte) []byte {
 
 func main() {
 	rep = engine.NewReport("C01")
-	rep.Rule = "decode: every tree of <=N nodes from the tag grammar (full boundary alphabet for small trees, reduced 2-value alphabet above) x 5 targets x 4 formats x 3 trailing streams x 2 source kinds; encode: every (type,value) of the reflect-built universe to the stated depth x {file,network} x {value,pointer}. distinct_nontrivial = distinct trees + distinct (type,value) pairs (the choice-tape enumeration is injective)"
+	rep.Rule = "decode: every tree of <=N nodes from the tag grammar (full boundary alphabet for small trees, reduced 2-value alphabet above) x 5 targets x 4 formats x 3 trailing streams x 2 source kinds; encode: every (type,value) of the reflect-built universe to the stated depth x {file,network} x {value,pointer}; call histories: every sequence of <= K calls over call_history_menu, results retained and re-checked after later calls; audit families: every case of the finite menus listed under extra_families (used destinations, container/string size classes, widening destinations, struct-tag combinations, Decoder/Encoder reuse, typed maps, reader behaviours). distinct_nontrivial = distinct trees + distinct (type,value) pairs (the choice-tape enumeration is injective) + distinct call histories + distinct named audit cases"
 	if rep.ReplayPath != "" {
 		replay()
 		return
@@ -356,6 +360,7 @@ func main() {
 	decodeDirection(nFull, nRed, dl)
 	encodeDirection(depth, dl.Add(30*time.Second))
 	catalogue()
+	extraFamilies()
 	if rep.Thorough() {
 		histories(5, 4)
 	} else {
@@ -437,6 +442,10 @@ func replay() {
 		}
 	case "catalogue":
 		catalogue()
+	case "extra":
+		var c XCase
+		json.Unmarshal(rp.Case, &c)
+		replayExtra(c)
 	case "history":
 		var c HistCase
 		json.Unmarshal(rp.Case, &c)
